@@ -100,9 +100,9 @@ def run(ctx):
                what="iter_limit is not initialised from the number of objects: the bound on enumeration work is gone or wrong")
     # Kids may be held behind a reference: the helper that fetches them must dereference
     kb = F.fn("PageTreeIter::kids")
-    der = [c for b2 in F.with_closures(kb) for c in b2.calls if c.local and re.search(r"Dictionary::get_deref$|Document::dereference$|Document::get_object$", c.name)
+    der = [c for b2 in F.with_closures(kb) for c in b2.calls if c.local and re.search(r"Dictionary::get_deref$|Document::dereference$|Document::get_object$", c.cname)
            and any(lib._const_bytes_through(b2, a) == b"Kids" for a in c.args)]
-    raw = [c for b2 in F.with_closures(kb) for c in b2.calls if c.local and re.search(r"Dictionary::get$", c.name) and any(lib._const_bytes_through(b2, a) == b"Kids" for a in c.args)]
+    raw = [c for b2 in F.with_closures(kb) for c in b2.calls if c.local and re.search(r"Dictionary::get$", c.cname) and any(lib._const_bytes_through(b2, a) == b"Kids" for a in c.args)]
     ctx.ob(R, "kids-behind-references|kids", len(der) >= 1 and not raw, "Kids is fetched with get_deref (%d call)" % len(der), kb.where(),
            what="PageTreeIter::kids no longer resolves a /Kids entry held behind a reference: the subtree of such a node is silently dropped")
     # rule 3: numbering from 1
